@@ -198,23 +198,78 @@ def frFor (line : String) (k : Nat) : List Addr :=
       | _ => none
   | none => []
 
-def NDrv.stepAll (d : NDrv) (line : String) (t : Nat) (target : Option (Nat × DOp)) : NDrv × String :=
+/-- `~sched=W,I0,T,O,...`: the order in which, at the instant of a racing op, the worker's task was
+polled (`W`), the handler took the n-th input of the op (`I<n>`), one due timer entry (`T`) or
+looked at the worker's published state (`O`) -/
+def schedule (line : String) (inputs : List DOp) : List DOp :=
+  match oracle? (words line) "sched" with
+  | none => inputs
+  | some sch =>
+    let items := if sch = "-" then [] else sch.splitOn ","
+    let ops := items.filterMap fun c =>
+      match c with
+      | "W" => some DOp.worker
+      | "T" => some DOp.timer1
+      | "O" => some DOp.observe
+      | _ => if c.startsWith "I" then (c.drop 1).toString.toNat?.bind (inputs[·]?) else none
+    -- an input the trace does not show (it had no effect the hooks see) is taken at the end
+    let used := items.filterMap fun c => if c.startsWith "I" then (c.drop 1).toString.toNat? else none
+    ops ++ ((List.range inputs.length).filter (fun i => !used.contains i)).filterMap (inputs[·]?)
+
+def NDrv.stepAllG (d : NDrv) (line : String) (t : Nat) (target : Option (Nat × List DOp)) : NDrv × String :=
+  let hold := (words line).any (· == "~hold")
   let (nodes, evs) := d.nodes.foldl (fun (acc : List (Nat × DState) × List (Nat × Nat × DEv)) p =>
     let (k, s) := p
     let s := { s with frOracle := frFor line k }
-    let op := match target with
-      | some (k', op) => if k' = k then op else DOp.adv
-      | none => DOp.adv
+    let (ops, hold) := match target with
+      | some (k', ops) => if k' = k then (schedule line ops, hold) else ([DOp.adv], false)
+      | none => ([DOp.adv], false)
     let bf := match oracle? (words line) "bfirst" with
       | some l => (l.splitOn ",").any (·.toNat? == some k)
       | none => false
-    let r := s.step op t bf
+    let r := s.stepG ops t bf hold
     (acc.1 ++ [(k, r.1)], acc.2 ++ r.2.map (fun e => (e.1, k, e.2)))) ([], [])
   let d := { d with nodes := nodes, now := t }
   renderEvents d evs
 
+def NDrv.stepAll (d : NDrv) (line : String) (t : Nat) (target : Option (Nat × DOp)) : NDrv × String :=
+  d.stepAllG line t (target.map fun p => (p.1, [p.2]))
+
+/-- the input a `dg <tid> <src> <body...>` / `dgraw <hex> <src>` item stands for at node `k` -/
+def NDrv.parseDatagram? (d : NDrv) (k : Nat) (st : DState) (ws : List String) : Option (Option DOp) :=
+  match ws with
+  | "dg" :: tidw :: src :: rest =>
+    match Addr.parse? src, d.parseTid? k tidw with
+    | some src, some tid =>
+      match parseBodyN? (d.resolveToks k rest) with
+      | some body =>
+        let body := match body with
+          | .req (.announce id ih p tok) =>
+            (match tokDec? tok with
+             | some tt => if tt.secret ≥ st.h.tokens.next then Body.req (.announce id ih p (List.replicate 20 0)) else body
+             | none => body)
+          | b => b
+        some (some (.datagram tid body src))
+      | none => none
+    | _, _ => none
+  | ["dgraw", h, src] =>
+    match bytesOfHex? h, Addr.parse? src with
+    | some b, some src =>
+      match decodeMsg b with
+      | .ok m => some (some (.datagram (.raw m.tid) m.body src))
+      | .error => some (some (.garbage src))
+      | .unmodelled => some none
+    | _, _ => none
+  | _ => none
+
+def splitOnWord (sep : String) (ws : List String) : List (List String) :=
+  ws.foldl (fun acc w => if w = sep then acc ++ [[]] else acc.dropLast ++ [(acc.getLast?.getD []) ++ [w]]) [[]]
+
 def nodeStep (d : NDrv) (line : String) : NDrv × String :=
   let ws := plainWords line
+  -- `racing <op>`: the harness issued the input concurrently with what was due at that instant;
+  -- the order that resulted is in the `~hold ~sched=` annotations
+  let ws := if ws.head? = some "racing" then ws.drop 1 else ws
   match ws with
   | ["case", n] => ({}, "case " ++ n)
   | ["case", n, _] => ({}, "case " ++ n)
@@ -248,6 +303,41 @@ def nodeStep (d : NDrv) (line : String) : NDrv × String :=
         else (d, "bad-op")
       | _, _ => (d, "bad-op")
     | _, _, _, _, _, _, _ => (d, "bad-op")
+  | "combo" :: ks :: _yields :: rest =>
+    -- an API call and datagrams that reach the handler at about the same moment
+    match ks.toNat? with
+    | some k =>
+      match d.get? k with
+      | some st =>
+        let items := splitOnWord "||" rest.dropLast
+        let c : Option Cmd := match items.head? with
+          | some ["api", "bootstrapped"] => some .checkBootstrap
+          | some ["api", "search", ih, ann] => (id20? ih).map fun ih => .startLookup ih (ann = "1")
+          | some ["api", "state"] => some .getState
+          | some ["api", "contacts"] => some .loadContacts
+          | some ["api", "addr"] => some .getLocalAddr
+          | _ => none
+        let dgs := (items.drop 1).map (d.parseDatagram? k st)
+        match c with
+        | none => (d, "bad-op")
+        | some c =>
+          if dgs.isEmpty || dgs.any (·.isNone) then (d, "bad-op")
+          else if dgs.any (fun i => match i with | some none => true | _ => false) then ({ d with unmodelled := true }, "unmodelled")
+          else d.stepAllG line t (some (k, DOp.cmd c :: dgs.filterMap (·.join)))
+      | none => (d, "bad-op")
+    | none => (d, "bad-op")
+  | "multi" :: ks :: rest =>
+    -- several datagrams that are in the node's socket when its handler task is polled
+    match ks.toNat? with
+    | some k =>
+      match d.get? k with
+      | some st =>
+        let items := (splitOnWord "||" rest.dropLast).map (d.parseDatagram? k st)
+        if items.isEmpty || items.any (·.isNone) then (d, "bad-op")
+        else if items.any (fun i => match i with | some none => true | _ => false) then ({ d with unmodelled := true }, "unmodelled")
+        else d.stepAllG line t (some (k, items.filterMap (·.join)))
+      | none => (d, "bad-op")
+    | none => (d, "bad-op")
   | "dg" :: ks :: tidw :: src :: rest =>
     match ks.toNat?, Addr.parse? src with
     | some k, some src =>
